@@ -190,6 +190,42 @@ class CE(Node):
 
 
 CUSTOM_CLASSES = (CA, CB, CC, CD, CE)
+
+
+# ---------------------------------------------------------------------------------------------
+# optree dataclasses: nodes whose flatten / unflatten functions are the LIBRARY's own Python code
+# (optree/dataclasses.py).  Registered once, at import, in the global namespace, so that they are
+# nodes in every namespace and in every interpreter that imports this module (pickles load).
+# ``__post_init__`` runs inside every unflatten-type operation and is a yield / fault point.
+def _make_dataclasses():
+    import optree
+    import optree.dataclasses as odc
+    glob = optree.registry.__dict__['__GLOBAL_NAMESPACE']
+
+    @odc.dataclass(namespace=glob)
+    class DC1:
+        x: object
+        y: object
+        tag: int = odc.field(default=0, pytree_node=False)
+
+        def __post_init__(self):
+            _h('dc.__post_init__')
+
+    @odc.dataclass(namespace=glob)
+    class DC2:
+        only: object
+
+        def __post_init__(self):
+            _h('dc.__post_init__')
+
+    for c in (DC1, DC2):
+        c.__module__ = __name__
+        c.__qualname__ = c.__name__
+    return DC1, DC2
+
+
+DC1, DC2 = _make_dataclasses()
+DC_CLASSES = (DC1, DC2)
 NT_CLASSES = (NT1, NT2, NT3, TNT, NT0)
 
 # ---------------------------------------------------------------------------------------------
